@@ -369,6 +369,21 @@ def _alias_pairs(meshes, arrays):
     for (mi, arr, _) in arrays:
         for (i, a, v) in ent:
             if np.shares_memory(arr, v): out.append(("array", mi, i, a))
+    # element rows (edges / faces / cells) are mutable state too when they are lists or arrays: a row object, or a whole
+    # container, held by two meshes means that an in-place edit of one mesh's element changes the other mesh
+    for cont in ("edges", "faces", "cells"):
+        seen = {}
+        for i, m in enumerate(meshes):
+            if not hasattr(m, cont): continue
+            c = getattr(m, cont)
+            data = getattr(c, "_data", None)
+            if data is not None:
+                if id(data) in seen and seen[id(data)] != i: out.append((seen[id(data)], "elem:" + cont, i, "container"))
+                seen.setdefault(id(data), i)
+            for r in c:
+                if isinstance(r, (list, np.ndarray)):
+                    if id(r) in seen and seen[id(r)] != i: out.append((seen[id(r)], "elem:" + cont, i, "row"))
+                    seen.setdefault(id(r), i)
     ats = [(i, m.vertices.get_attribute("w")._data) for i, m in enumerate(meshes) if m.vertices.has_attribute("w")]
     for x in range(len(ats)):
         for y in range(x + 1, len(ats)):
@@ -462,6 +477,12 @@ def _oracle_script(case):
                       f"step {step}: mesh #{p[2]} vertex {p[3]} shares memory with the array passed in")
                 continue
             who = creator.get(p[2])
+            if isinstance(p[1], str) and p[1].startswith("elem:"):
+                key = f"C06/alias/{who}/elements"
+                if not any(f["key"] == key for f in out):
+                    F(key, f"a mesh made by `{who}` shares mutable element rows ({p[1][5:]}) with another mesh",
+                      f"step {step}: mesh #{p[0]} and mesh #{p[2]} hold the same {p[3]} object")
+                continue
             rel = "itself" if p[0] == p[2] else "input"
             key = f"C06/alias/{who}/{rel}"
             if not any(f["key"] == key for f in out):
